@@ -1,8 +1,80 @@
+/-
+  C10 line-protocol ops.  Text arguments travel as hex of their UTF-8 encoding (they may contain any
+  character); encoder output is over the base58 alphabet and is printed as is.
+-/
 import Driver.Util
+import BtcVerif.Crypto.Sha256
+import BtcVerif.Model.Base58
 
 namespace Driver.C10
 open BtcVerif Driver
 
-def handle (_op : String) (_args : List String) : Option String := none
+def parseText? (hexUtf8 : String) : Option (List Char) := do
+  let bs ← parseHex? hexUtf8
+  let s ← String.fromUTF8? (ByteArray.mk bs.toArray)
+  pure s.toList
+
+def H : Bytes → Bytes := Crypto.hash256
+
+def renderBytes (r : Res Bytes) : String :=
+  match r with
+  | .ok b => "ok:" ++ toHex b
+  | .error e => "err:" ++ e.family
+
+def renderData (r : Res Model.Base58.B58Data) : String :=
+  match r with
+  | .ok d => "ok:" ++ toString d.nVersion.toNat ++ "," ++ toHex d.data
+  | .error e => "err:" ++ e.family
+
+def handle (op : String) (args : List String) : Option String :=
+  match op, args with
+  -- encode(b), then decode(encode(b))
+  | "c10.encode", [b] => some <| match parseHex? b with
+      | some b => let s := Model.Base58.encode b
+                  String.ofList s ++ "|" ++ renderBytes (Model.Base58.decode s)
+      | none => badArgs
+  | "c10.spec.enc", [b] => some <| match parseHex? b with
+      | some b => String.ofList (Spec.Base58.enc b)
+      | none => badArgs
+  -- decode(s), then encode(decode(s))
+  | "c10.decode", [s] => some <| match parseText? s with
+      | some s => (match Model.Base58.decode s with
+                   | .ok b => "ok:" ++ toHex b ++ "|" ++ String.ofList (Model.Base58.encode b)
+                   | .error e => "err:" ++ e.family)
+      | none => badArgs
+  | "c10.spec.dec", [s] => some <| match parseText? s with
+      | some s => (match Spec.Base58.dec s with
+                   | some b => "ok:" ++ toHex b
+                   | none => "err:b58err")
+      | none => badArgs
+  -- CBase58Data(s)  ->  nVersion, data
+  | "c10.check", [s] => some <| match parseText? s with
+      | some s => renderData (Model.Base58.new H s)
+      | none => badArgs
+  -- the reference rule applied to the reference decoding
+  | "c10.spec.check", [s] => some <| match parseText? s with
+      | some s => (match Spec.Base58.dec s with
+                   | none => "err:b58err"
+                   | some k => match Spec.Base58.checkSplit? H k with
+                       | some (v, p) => "ok:" ++ toString v.toNat ++ "," ++ toHex p
+                       | none => "err:b58checksum")
+      | none => badArgs
+  -- CBase58Data.from_bytes(data, nVersion)  ->  nVersion, data
+  | "c10.frombytes", [v, p] => some <| match parseInt? v, parseHex? p with
+      | some v, some p => renderData (Model.Base58.fromBytes p v)
+      | _, _ => badArgs
+  -- str(CBase58Data.from_bytes(data, nVersion))
+  | "c10.str", [v, p] => some <| match parseInt? v, parseHex? p with
+      | some v, some p => (match Model.Base58.fromBytes p v with
+                           | .ok d => "ok:" ++ String.ofList (Model.Base58.str H d)
+                           | .error e => "err:" ++ e.family)
+      | _, _ => badArgs
+  -- CBase58Data(str(CBase58Data.from_bytes(data, nVersion)))  ->  nVersion, data
+  | "c10.roundtrip", [v, p] => some <| match parseInt? v, parseHex? p with
+      | some v, some p => (match Model.Base58.fromBytes p v with
+                           | .ok d => renderData (Model.Base58.new H (Model.Base58.str H d))
+                           | .error e => "err:" ++ e.family)
+      | _, _ => badArgs
+  | _, _ => none
 
 end Driver.C10
